@@ -96,3 +96,12 @@ claim("C11",
            "assumed. Names are compared as monomials (factor order inside a name is not part of the property: 'x10 x2' for n>=11).",
       technique="deductive verification per configuration: exact unrolling + z3 polynomial identities over symbolic inputs",
       category="other")
+claim("C19",
+      text="Proof, bounded in the frame shape and complete in the values (category names and cell contents are arbitrary symbolic strings; every cell may "
+           "be missing / known / unseen): fit collects exactly the sorted distinct present values per column; _build_schema lays out contiguous disjoint blocks "
+           "named column=value (also with removed modalities); transform (single=False) sets exactly the indicator of each present known value and nothing "
+           "else in the row, missing gives no indicator, unseen raises ValueError or with skip_errors writes nothing (incl. the unbound/stale position "
+           "local), numeric columns and index pass through. Bounded: real pandas frames with 3 categorical columns, remove lists, single=True.",
+      note="pandas operations are assumed contracts (pyvc/pdmodel.py). Frame shape bounded (2 categorical columns x 2 categories, 1-3 rows). single=True only "
+           "in the bounded stand-in.",
+      technique="deductive verification: symbolic strings + dicts with symbolic keys, fork on key equality, z3 string theory")
